@@ -524,6 +524,13 @@ class RegexVM:
                 registers[reg_idx] = sp
                 pc += 1
 
+            elif opcode == Op.CLEAR_POS:
+                reg_idx = instr[1]
+                while len(registers) <= reg_idx:
+                    registers.append(-1)
+                registers[reg_idx] = -1  # CHECK_ADVANCE passes until SET_POS
+                pc += 1
+
             elif opcode == Op.CHECK_ADVANCE:
                 reg_idx = instr[1]
                 if reg_idx < len(registers) and registers[reg_idx] == sp:
